@@ -115,7 +115,7 @@ const PRESETS: [&str; 4] = ["default", "performance", "memory", "security"];
 /// `m_*` closures are the implementation.  Returns the Coq observation.
 #[allow(clippy::too_many_arguments)]
 fn step_check(
-    op: Op, refs: &mut [RefLru], shard_of: &dyn Fn(u64) -> usize, log: &Rec, seen: &mut usize,
+    op: Op, refs: &mut [RefLru], shard_of: &dyn Fn(u64) -> usize, log: Option<&Rec>, seen: &mut usize,
     get: &dyn Fn(u64) -> Option<u64>, put: &dyn Fn(u64, u64) -> Result<Option<u64>, String>, remove: &dyn Fn(u64) -> Option<u64>,
     contains: &dyn Fn(u64) -> bool, clear: &dyn Fn() -> Result<(), String>, len: &dyn Fn() -> usize,
     fails: &mut Vec<String>,
@@ -149,10 +149,11 @@ fn step_check(
                vec![g as i128] }
     };
     // eviction callback: exactly the entries evicted to make room, with their key and value, once
-    let lg = log.0.lock().unwrap();
-    let new_cb: Vec<(u64, u64)> = lg[*seen..].to_vec();
-    *seen = lg.len();
-    drop(lg);
+    // a map built without a callback (LruMap::new / with_config) cannot be observed here: nothing to compare
+    let new_cb: Vec<(u64, u64)> = match log {
+        Some(log) => { let lg = log.0.lock().unwrap(); let v = lg[*seen..].to_vec(); *seen = lg.len(); v }
+        None => expect_cb.clone(),
+    };
     let cb_ok = if c == 2 || c == 4 {
         let mut pool = tolerated.clone();
         new_cb.iter().all(|e| match pool.iter().position(|p| p == e) { Some(i) => { pool.remove(i); true } None => false })
@@ -198,7 +199,7 @@ fn lru_history(cx: &mut Ctx, cap: usize, preset: u64, nkeys: u64, ops: &[Op], fo
     let mut obs: Vec<Vec<i128>> = vec![];
     let r = guarded(|| {
         for &op in ops {
-            let o = step_check(op, &mut refs, &|_| 0, &log, &mut seen,
+            let o = step_check(op, &mut refs, &|_| 0, Some(&log), &mut seen,
                 &|k| m.get(&k), &|k, v| m.put(k, v).map_err(|e| format!("{:?}", e)), &|k| m.remove(&k),
                 &|k| m.contains_key(&k), &|| m.clear().map_err(|e| format!("{:?}", e)), &|| m.len(), &mut fails);
             obs.push(o);
@@ -270,7 +271,7 @@ fn cmap_history(cx: &mut Ctx, total: usize, nshards: usize, preset: u64, strat: 
     let mut obs: Vec<Vec<i128>> = vec![];
     let r = guarded(|| {
         for &op in ops {
-            let o = step_check(op, &mut refs, &|k| route[&k], &log, &mut seen,
+            let o = step_check(op, &mut refs, &|k| route[&k], Some(&log), &mut seen,
                 &|k| m.get(&k), &|k, v| m.put(k, v).map_err(|e| format!("{:?}", e)), &|k| m.remove(&k),
                 &|k| m.contains_key(&k), &|| m.clear().map_err(|e| format!("{:?}", e)), &|| m.len(), &mut fails);
             obs.push(o);
@@ -406,7 +407,7 @@ fn ta_history(cx: &mut Ctx, total: usize, nshards: usize, nthreads: usize, tops:
     for &(tid, op) in tops {
         let t = (tid as usize) % workers.len();
         let j = route[t];
-        let o = step_check(op, &mut refs, &|_| j, &log, &mut seen,
+        let o = step_check(op, &mut refs, &|_| j, Some(&log), &mut seen,
             &|k| dec_opt(call(t, (0, k, 0))),
             &|k, v| { let r = call(t, (1, k, v)); if r == vec![-1] { Err("put refused".into()) } else if r[0] < -1 { Err("panicked or hung".into()) } else { Ok(dec_opt(r)) } },
             &|k| dec_opt(call(t, (2, k, 0))), &|k| call(t, (3, k, 0)) == vec![1],
@@ -938,8 +939,12 @@ fn fsa_history(cx: &mut Ctx, max_states: usize, strategy: u64, ops: &[(u8, u64, 
     if let Some(f) = fails.first() { cx.sum.fail(cell, None, cj, f); }
 }
 
+#[path = "c17_wide.rs"]
+mod wide;
+
 // ---------------------------------------------------------------------------------------------
 fn run_one(cx: &mut Ctx, c: &Value) {
+    if wide::run_one_wide(cx, c) { return; }
     let u = |k: &str| c[k].as_u64().unwrap_or(0);
     match c["cell"].as_str() {
         Some("lru") => lru_history(cx, u("cap") as usize, u("preset"), u("nkeys"), &parse_ops(&c["ops"]), true),
@@ -987,7 +992,7 @@ pub fn run(args: &Args) {
     std::fs::create_dir_all(&tmp).expect("temp dir");
     let th = args.thorough;
     let mut cx = Ctx {
-        sum: Summary::new("C17", "LruMap / ConcurrentLruMap: every get/put/remove/contains/clear/len history of <= 4 (quick) or 5 (thorough) operations over 3 keys at capacity 1 and 2, plus generated histories of up to 120 operations over cap+1..cap+3 keys at capacities 1..4 (eviction on most puts), 4 config presets, shard counts 1,2,4,8, three routing strategies, a recording eviction callback; each result, the callback invocations of each step, len and final retrievability compared with a time-stamped reference and with the Coq model. Page cache: files of 0, 1, PAGE-1, PAGE, PAGE+1, 2*PAGE+100, 3*PAGE+17, 5*PAGE bytes, cache of 0..3 pages and large, reads at offsets/lengths at page boundaries, inside the short last page, straddling, beyond EOF, with prefetch, invalidate_page/range, overwrite+invalidate, read_batch, read_with_prefetch; bytes compared with the file and (digest) with the Coq model. Also: the file rewritten without telling the cache and invalidate_range as a later call (same, covering, partial, other range or none), close_file, SingleLruPageCache with a used buffer and size(). CachedBlobStore: put/get/remove/flush/prefetch/enable/disable histories for 3 write strategies with own and shared cache (blobs of 0..2*PAGE+5 bytes, a real file read / rewritten through the shared cache), compared with the wrapped store and with the Coq model over a MemoryBlobStore model. RoundRobin: one call per operation against the counter model; ThreadAffinity: 1-4 worker threads, observed shard per thread, per-shard reference LRU. non-trivial = more puts than capacity / history of >= 3 operations"),
+        sum: Summary::new("C17", "LruMap / ConcurrentLruMap: every get/put/remove/contains/clear/len history of <= 4 (quick) or 5 (thorough) operations over 3 keys at capacity 1 and 2, plus generated histories of up to 120 operations over cap+1..cap+3 keys at capacities 1..4 (eviction on most puts), 4 config presets, shard counts 1,2,4,8, three routing strategies, a recording eviction callback; each result, the callback invocations of each step, len and final retrievability compared with a time-stamped reference and with the Coq model. Page cache: files of 0, 1, PAGE-1, PAGE, PAGE+1, 2*PAGE+100, 3*PAGE+17, 5*PAGE bytes, cache of 0..3 pages and large, reads at offsets/lengths at page boundaries, inside the short last page, straddling, beyond EOF, with prefetch, invalidate_page/range, overwrite+invalidate, read_batch, read_with_prefetch; bytes compared with the file and (digest) with the Coq model. Also: the file rewritten without telling the cache and invalidate_range as a later call (same, covering, partial, other range or none), close_file, SingleLruPageCache with a used buffer and size(). CachedBlobStore: put/get/remove/flush/prefetch/enable/disable histories for 3 write strategies with own and shared cache (blobs of 0..2*PAGE+5 bytes, a real file read / rewritten through the shared cache), compared with the wrapped store and with the Coq model over a MemoryBlobStore model. RoundRobin: one call per operation against the counter model; ThreadAffinity: 1-4 worker threads, observed shard per thread, per-shard reference LRU. Oracle breadth (c17_wide.rs, oracle only): LruMap / ConcurrentLruMap through all four constructors each, 8 key / value type pairs (String, u8, signed, zero-sized, bool, tuples, byte vectors), is_empty / capacity / statistics bound, shard_sizes / shard_count / keys / rebalance / for_each_shard / shard_stats after every kind of operation, presets as shipped (4 x 512, 16 x 1024 filled; 2 x CPUs x 8192 constructed), capacities 255..257, 65535..65537, 2^20+1 and 512 / 1024 / 8192 as shipped through 10^4..10^6 generated operations (kind, n, seed); page cache histories with mark_dirty / flush_file / file_size / register_file / a second id of one path / reopen after close / multi-request read_batch / read_with_prefetch with any look-ahead and extreme offsets / reused, pooled and held buffers / config options (prefetch, statistics, page_size, huge pages, load factor, 64 shards), a sparse 4 GiB file (page ids beyond 2^16 and 2^20), files larger than the 2 MiB huge-page minimum and than the 32 MiB shipped preset; CacheBuffer + BufferPool against a Vec<u8>; FileManager directly; CachedBlobStore through the short constructors, over a nested CachedBlobStore and a PlainBlobStore, two stores and a real file on one cache, inner_mut, blobs of 64 KiB..1 MiB; FsaCache presets, zero paths, is_full, the state word. non-trivial = more puts than capacity / history of >= 3 operations"),
         shards: CoqShards::new(HEADER, 75),
         budget_lru: if th { 6000 } else { 700 }, budget_cmap: if th { 2000 } else { 250 }, budget_pc: if th { 1500 } else { 220 },
         terms: vec![vec![]; 8], n_lru: 0, n_cmap: 0, n_pc: 0, tmp: tmp.clone(), fileno: 0,
@@ -1138,6 +1143,8 @@ pub fn run(args: &Args) {
         let ops: Vec<(u8, u64, u64)> = (0..n).map(|_| { let c = rng.below(100); (if c < 60 { 0 } else if c < 85 { 1 } else if c < 97 { 2 } else { 3 }, rng.below(1 << 20), rng.below(1 << 30)) }).collect();
         fsa_history(&mut cx, max_states, rng.below(3), &ops);
     }
+    // oracle breadth: secondary entry points, presets, options, thresholds, rare element types (c17_wide.rs)
+    wide::run_wide(&mut cx, &mut rng, th);
     cx.sum.dist_max("coq_cases_lru", cx.n_lru as u64);
     cx.sum.dist_max("coq_cases_cmap", cx.n_cmap as u64);
     cx.sum.dist_max("coq_cases_page_cache", cx.n_pc as u64);
